@@ -147,3 +147,50 @@ struct AreaReg {
     static int area_##name(vh::Args &a)
 
 }  // namespace vh
+
+// ---------------------------------------------------------------- wire format for detector error models
+// tokens:  e <argbits> <tag|-> <ntargets> <D5|L2|^>...      error
+//          d <nargs> <argbits>... <tag|-> <D5>               detector
+//          l <tag|-> <L3>                                    logical_observable
+//          s <nargs> <argbits>... <tag|-> <shift>            shift_detectors
+//          r <count> <tag|-> ... x                           repeat block
+//          .                                                 end
+namespace vh {
+inline void wire_dem_into(const stim::DetectorErrorModel &m, std::ostringstream &o) {
+    using namespace stim;
+    for (const auto &op : m.instructions) {
+        std::string tag = hex_of(std::string(op.tag));
+        switch (op.type) {
+            case DemInstructionType::DEM_ERROR:
+                o << "e " << dbits(op.arg_data.size() ? op.arg_data[0] : 0.0) << " " << tag << " " << op.target_data.size();
+                for (auto t : op.target_data) o << " " << t.str();
+                o << " ";
+                break;
+            case DemInstructionType::DEM_DETECTOR:
+                o << "d " << op.arg_data.size();
+                for (double a : op.arg_data) o << " " << dbits(a);
+                o << " " << tag << " " << op.target_data[0].str() << " ";
+                break;
+            case DemInstructionType::DEM_LOGICAL_OBSERVABLE:
+                o << "l " << tag << " " << op.target_data[0].str() << " ";
+                break;
+            case DemInstructionType::DEM_SHIFT_DETECTORS:
+                o << "s " << op.arg_data.size();
+                for (double a : op.arg_data) o << " " << dbits(a);
+                o << " " << tag << " " << op.target_data[0].data << " ";
+                break;
+            case DemInstructionType::DEM_REPEAT_BLOCK:
+                o << "r " << op.repeat_block_rep_count() << " " << tag << " ";
+                wire_dem_into(op.repeat_block_body(m), o);
+                o << "x ";
+                break;
+        }
+    }
+}
+inline std::string wire_dem(const stim::DetectorErrorModel &m) {
+    std::ostringstream o;
+    wire_dem_into(m, o);
+    o << ".";
+    return o.str();
+}
+}  // namespace vh
